@@ -1228,3 +1228,103 @@ def acl_assembler_step():
     return {'name': 'acl-assembler-feed_packet', 'kernel': 'bumble.hci.HCI_AclDataPacketAssembler.feed_packet',
             'bounds': 'one ACL fragment (PB flag 0..3, 0..65535 bytes, first fragments >= 2 bytes, announced L2CAP length 0..65535) into an arbitrary assembler state (nothing pending, or 2.. bytes of a PDU still short of its announced length): the PDU is delivered exactly when 4 + announced bytes are there, as the concatenation collected so far; an overflow drops it; a continuation with nothing pending is ignored; an undefined PB flag changes nothing (or trips the assert when nothing is pending)',
             'fn': fn, 'validate': validate, 'replay': replay, 'mutants': [(n, (lambda r=r: fn(r))) for n, r in muts]}
+
+
+# ================================================================================= C05: Host.send_iso_sdu
+def iso_fragmentation():
+    from bumble import host, hci
+
+    def symbolic(repl=None, pin=None, out=None):
+        fn = func_ast(host.Host.send_iso_sdu, repl)
+        loop = first(fn, ast.While)
+        solver = z3.Solver()
+        solver.set('timeout', 60000)
+        it = Interp(solver, stubs={'logger': _LOGGER})
+        vc = VC(it, ('L', 'off', 'm', 'first'))
+
+        def make_env(s):
+            L, off, m = z3.Ints('L off m')
+            firstb = z3.Bool('first')
+            rem = L - off
+            s.add(L >= 0, L <= 70000, off >= 0, rem >= 0, m >= 5, m <= 65535,
+                  z3.Implies(firstb, off == 0), z3.Implies(z3.Not(firstb), z3.And(off >= 1, rem >= 1)))
+            for name, v in (pin or {}).items():
+                s.add({'L': L, 'off': off, 'm': m}[name] == v if name != 'first' else firstb == v)
+            sent = []
+            q = Obj(max_packet_size=m, enqueue=lambda pkt, handle: sent.append((pkt, handle)))
+            env = {'sdu': SBytes.base('sdu', L), 'offset': off, 'bytes_remaining': rem, 'is_first_fragment': firstb, 'connection_handle': z3.Int('h'),
+                   'iso_link': Obj(packet_queue=q, packet_sequence_number=z3.Int('psn')), 'hci': Obj(HCI_IsoDataPacket=lambda **kw: kw)}
+            return env, dict(L=L, off=off, m=m, first=firstb, rem=rem, sent=sent)
+
+        def on_path(env, ctx, it, ret):
+            L, off, m, firstb, rem, sent = (ctx[k] for k in ('L', 'off', 'm', 'first', 'rem', 'sent'))
+            if len(sent) != 1:
+                vc.must(z3.BoolVal(False))
+                return
+            p, handle = sent[0]
+            frag = p['iso_sdu_fragment']
+            flen = frag.length()
+            fstart = frag.segs[0][1] if frag.segs else off
+            hdr = z3.If(firstb, 4, 0)
+            if out is not None:
+                out.append(_ints(None, it.solver, [flen, p['pb_flag'], p['data_total_length'], env['offset'], env['bytes_remaining']]))
+                return
+            last = rem == flen
+            has_len = 'iso_sdu_length' in p
+            vc.must(z3.And(flen == z3.If(rem <= m - hdr, rem, m - hdr), fstart == off, p['data_total_length'] == hdr + flen, p['data_total_length'] <= m,
+                           p['pb_flag'] == z3.If(firstb, z3.If(last, 2, 0), z3.If(last, 3, 1)),
+                           z3.BoolVal(has_len) == firstb, (p['iso_sdu_length'] == L) if has_len else z3.BoolVal(True),
+                           (p['packet_sequence_number'] == env['iso_link'].packet_sequence_number) if has_len else z3.BoolVal(True),
+                           env['offset'] == off + flen, env['bytes_remaining'] == rem - flen, env['offset'] + env['bytes_remaining'] == L,
+                           z3.Or(flen >= 1, z3.And(firstb, L == 0)),                         # progress, except the single packet of an empty SDU
+                           z3.BoolVal(env['is_first_fragment'] is False), handle == env['connection_handle']))
+        it.explore(loop.body, make_env, on_path, entry=lambda it, env: it.require(loop.test, env))
+        return vc, it
+
+    def real(L, m):
+        frags = []
+        h = host.Host.__new__(host.Host)
+        link = Obj(packet_queue=Obj(max_packet_size=m, enqueue=lambda pkt, handle: frags.append(pkt)), packet_sequence_number=7)
+        h.cis_links, h.bis_links = {9: link}, {}
+        sdu = bytes(i % 251 for i in range(L))
+        host.Host.send_iso_sdu(h, 9, sdu)
+        return sdu, frags
+
+    def real_ok(L, m):
+        sdu, frags = real(L, m)
+        if not frags or b''.join(bytes(f.iso_sdu_fragment) for f in frags) != sdu:
+            return False
+        flags = [f.pb_flag for f in frags]
+        want = [2] if len(frags) == 1 else [0] + [1] * (len(frags) - 2) + [3]
+        return flags == want and frags[0].iso_sdu_length == L and all(f.data_total_length <= m for f in frags)
+
+    def validate():
+        k = 0
+        for L, m in ((0, 5), (1, 5), (2, 5), (10, 8), (4, 8), (5, 8), (300, 64), (70000, 251)):
+            sdu, frags = real(L, m)
+            o = []
+            symbolic(pin={'L': L, 'off': 0, 'm': m, 'first': True}, out=o)
+            f = frags[0]
+            want = [len(bytes(f.iso_sdu_fragment)), f.pb_flag, f.data_total_length, len(bytes(f.iso_sdu_fragment)), L - len(bytes(f.iso_sdu_fragment))]
+            if len(o) != 1 or o[0] != want:
+                return False, f'mismatch at L={L} m={m}: interpreter {o} vs real {want}'
+            if not real_ok(L, m):
+                return False, f'the real send_iso_sdu(L={L}, m={m}) does not satisfy the whole-SDU oracle'
+            k += 1
+        return True, f'{k} concrete (SDU, packet size) states: first packet agrees with the interpreter and the real function satisfies the whole-SDU oracle'
+
+    def fn(repl=None):
+        vc, it = symbolic(repl)
+        return _status(vc, it)
+
+    def replay(model):
+        L, m = int(model.get('L', 0)), max(int(model.get('m', 5)), 5)
+        ok = real_ok(min(L, 70000), m)
+        return (not ok), f'real send_iso_sdu(L={L}, max packet {m}) {"violates" if not ok else "satisfies"} the whole-SDU oracle'
+
+    muts = [('header-not-counted', ('iso_link.packet_queue.max_packet_size - header_length\n', 'iso_link.packet_queue.max_packet_size\n')),
+            ('last-flag-off-by-one', ('is_last_fragment = bytes_remaining == fragment_length', 'is_last_fragment = bytes_remaining <= fragment_length + 1')),
+            ('offset-not-advanced', ('offset += fragment_length', 'offset += 0'))]
+    return {'name': 'send_iso_sdu-iteration', 'kernel': 'bumble.host.Host.send_iso_sdu (while-loop body)',
+            'bounds': 'one iteration from any loop-head state: SDU 0..70000 bytes, ISO packet size 5..65535, first or later fragment, any offset: the fragment is the next min(remaining, size - header) bytes, total length <= size, PB flag = complete / first / continuation / last exactly by position, the SDU length and sequence number are in the first fragment only, offset + remaining is conserved, progress (an empty SDU is one complete packet)',
+            'fn': fn, 'validate': validate, 'replay': replay, 'mutants': [(n, (lambda r=r: fn(r))) for n, r in muts]}
